@@ -20,6 +20,7 @@ passing the reference as a URL object gives the same result as passing that obje
 Equivalences (DESIGN 5.1): the expected text is the 5.2 target with dot segments removed; both sides are
 compared modulo "empty path under an authority == '/'" and "explicit default port == no port".
 """
+import multiprocessing
 import re
 import signal
 
@@ -312,13 +313,17 @@ def eval_navigate(URL, bi, ref):
     if '.' in rsegs or '..' in rsegs:
         out.append(('C07|fn:navigate|dot-segment-in-result', 'no "." or ".." in path_parts', rsegs, tags))
     # base left unmodified
+    modified = False
     try:
         after = snapshot(base)
         if after != bi.snap:
+            modified = True
             out.append(('C07|fn:navigate|base-modified', bi.snap, after, tags))
         elif not (base == bi.pristine) or base != bi.pristine:
+            modified = True
             out.append(('C07|fn:navigate|base-modified', 'base == pristine copy', 'unequal', tags))
     except Exception as e:
+        modified = True
         out.append(('C07|fn:navigate|base-modified', bi.snap, 'raised %s' % type(e).__name__, tags))
     # the reference given as a URL object resolves like that object's text
     try:
@@ -330,19 +335,20 @@ def eval_navigate(URL, bi, ref):
         if obs_obj != obs_txt:
             out.append(('C07|fn:navigate|URL-object-dest-differs-from-its-text', obs_txt, obs_obj, tags))
         after = snapshot(base2)
-        if after != bi.snap:
-            out.append(('C07|fn:navigate|base-modified(URL-object-dest)', bi.snap, after, tags))
+        if after != bi.snap and not modified:
+            out.append(('C07|fn:navigate|base-modified', bi.snap, after, tags + ['dest_is_URL_object']))
     except Exception as e:
         out.append(('C07|fn:navigate|raised(URL-object-dest)', None, 'raised %s' % type(e).__name__, tags))
     # the returned URL is a new object: using it must not reach back into the base
-    try:
-        res.query_params.add('zz', 'zz')
-        res.fragment = 'zz'
-        after = snapshot(base)
-        if after != bi.snap:
-            out.append(('C07|fn:navigate|result-shares-mutable-state-with-base', bi.snap, after, tags))
-    except Exception as e:
-        out.append(('C07|fn:navigate|result-not-a-usable-URL', None, 'raised %s' % type(e).__name__, tags))
+    if not modified:
+        try:
+            res.query_params.add('zz', 'zz')
+            res.fragment = 'zz'
+            after = snapshot(base)
+            if after != bi.snap:
+                out.append(('C07|fn:navigate|result-shares-mutable-state-with-base', bi.snap, after, tags))
+        except Exception as e:
+            out.append(('C07|fn:navigate|result-not-a-usable-URL', None, 'raised %s' % type(e).__name__, tags))
     return out
 
 
@@ -386,25 +392,55 @@ class _Hang(BaseException):
     pass
 
 
+class _Abort(BaseException):
+    pass
+
+
 def _on_timer(signum, frame):
     raise _Hang()
 
 
-CPU_BUDGET_S = 600      # per shard, process CPU time; a shard needs a few seconds
+CASE_CPU_BUDGET_S = 5.0     # process CPU time for one case (a case needs ~0.0002 s)
+MAX_HANGS_PER_SHARD = 3
+_HANG_SEEN = multiprocessing.Value('i', 0)     # shared with the forked workers
+
+
+class Guard:
+    """Runs every case under a CPU-time budget, so that a hang in the code under test becomes a violation
+    of that case instead of hanging the checker.  After MAX_HANGS_PER_SHARD hangs (or one, once any worker
+    has seen a hang) the rest of the shard is abandoned and the coverage is reported as not exhaustive."""
+
+    def __init__(self, t, part):
+        self.t, self.part, self.hangs = t, part, 0
+
+    def call(self, case, fn, *args):
+        signal.setitimer(signal.ITIMER_VIRTUAL, CASE_CPU_BUDGET_S)
+        try:
+            try:
+                return fn(*args)
+            finally:
+                signal.setitimer(signal.ITIMER_VIRTUAL, 0)
+        except _Hang:
+            self.hangs += 1
+            self.t.add('hangs')
+            self.t.bad('C07|fn:%s|hang' % self.part, case, 'terminates',
+                       'no result within %g CPU seconds' % CASE_CPU_BUDGET_S)
+            if self.hangs >= MAX_HANGS_PER_SHARD or _HANG_SEEN.value:
+                _HANG_SEEN.value = 1
+                self.t.add('shards_abandoned_after_hang')
+                raise _Abort()
+            _HANG_SEEN.value = 1
+            return None
 
 
 def _guarded(shard):
-    """Run a shard under a CPU-time budget so that a hang in the code under test becomes a violation."""
     def run(arg):
         t = inputs.Tally()
-        cur = {}
         old = signal.signal(signal.SIGVTALRM, _on_timer)
-        signal.setitimer(signal.ITIMER_VIRTUAL, CPU_BUDGET_S)
         try:
-            shard(arg, t, cur)
-        except _Hang:
-            t.bad('C07|fn:%s|hang' % arg['part'], dict(cur), 'terminates',
-                  'no result within %d CPU seconds for the shard' % CPU_BUDGET_S)
+            shard(arg, t, Guard(t, arg['part']))
+        except _Abort:
+            pass
         finally:
             signal.setitimer(signal.ITIMER_VIRTUAL, 0)
             signal.signal(signal.SIGVTALRM, old)
@@ -418,29 +454,33 @@ def _url():
 
 
 def _record(t, case, results):
-    for sig, exp, obs, tags in results:
+    for sig, exp, obs, tags in results or ():
         t.bad(sig, case, exp, obs, tags=tags)
 
 
-def shard_navigate(arg, t, cur):
+def _base_info(g, URL, part, base):
+    bi = g.call({'part': part, 'base': base, 'refs': ['']}, BaseInfo, URL, base)
+    if bi is None:
+        raise _Abort()
+    return bi
+
+
+def shard_navigate(arg, t, g):
     URL = _url()
-    bi = BaseInfo(URL, arg['base'])
+    bi = _base_info(g, URL, arg['part'], arg['base'])
     for path in ref_paths(arg['kind'], arg['alphabet'], arg['maxseg']):
         nontrivial = path_is_nontrivial(path)
         for q in arg['queries']:
             for f in arg['fragments']:
                 ref = make_ref(path, q, f)
                 case = {'part': arg['part'], 'base': bi.text, 'refs': [ref]}
-                cur.update(case)
                 t.count(nontrivial=nontrivial, sample=case if len(t.samples) < 3 else None)
-                res = eval_navigate(URL, bi, ref)
-                if res:
-                    _record(t, case, res)
+                _record(t, case, g.call(case, eval_navigate, URL, bi, ref))
 
 
-def shard_absolute(arg, t, cur):
+def shard_absolute(arg, t, g):
     URL = _url()
-    bi = BaseInfo(URL, arg['base'])
+    bi = _base_info(g, URL, 'absolute', arg['base'])
     for path in ref_paths('abempty', SEGMENTS, arg['maxseg']):
         nontrivial = path_is_nontrivial(path)
         for scheme in ABS_SCHEMES:
@@ -449,11 +489,8 @@ def shard_absolute(arg, t, cur):
                     for f in (None, 's'):
                         ref = make_ref('%s://%s%s' % (scheme, auth, path), q, f)
                         case = {'part': 'absolute', 'base': bi.text, 'refs': [ref]}
-                        cur.update(case)
                         t.count(nontrivial=nontrivial, sample=case if len(t.samples) < 3 else None)
-                        res = eval_navigate(URL, bi, ref)
-                        if res:
-                            _record(t, case, res)
+                        _record(t, case, g.call(case, eval_navigate, URL, bi, ref))
 
 
 def chain_refs(maxseg, queries, fragments):
@@ -466,51 +503,57 @@ def chain_refs(maxseg, queries, fragments):
     return out
 
 
-def shard_chain(arg, t, cur):
+def _first_step(URL, bi, r1):
+    try:
+        u1 = URL(bi.text).navigate(r1)
+        return u1, snapshot(u1)
+    except Exception:
+        return None, None              # reported per case (eval_chain repeats the first step)
+
+
+def _chain_fresh(URL, bi, r1, r2):
+    """Chain case with its own intermediate URL, plus: the second step leaves the intermediate unmodified."""
+    res = eval_chain(URL, bi, r1, r2)
+    try:
+        v = URL(bi.text).navigate(r1)
+        before = snapshot(v)
+        v.navigate(r2)
+        if snapshot(v) != before:
+            res.append(('C07|fn:navigate-chain|intermediate-modified', before, snapshot(v), []))
+    except Exception:
+        pass
+    return res
+
+
+def shard_chain(arg, t, g):
     URL = _url()
-    bi = BaseInfo(URL, arg['base'])
+    bi = _base_info(g, URL, 'chain', arg['base'])
     refs2 = arg['refs2']
     for r1, nt1 in arg['refs1']:
-        u1 = text1 = None
-        try:
-            u1 = URL(bi.text).navigate(r1)
-            text1 = snapshot(u1)
-        except Exception:
-            pass                      # reported per case below (eval_chain repeats the first step)
+        u1, snap1 = g.call({'part': 'chain', 'base': bi.text, 'refs': [r1]}, _first_step, URL, bi, r1) or (None, None)
         rows = []
         for r2, nt2 in refs2:
             case = {'part': 'chain', 'base': bi.text, 'refs': [r1, r2]}
-            cur.update(case)
             t.count(nontrivial=nt1 or nt2, sample=case if len(t.samples) < 3 else None)
-            rows.append((case, eval_chain(URL, bi, r1, r2, u1)))
+            rows.append((case, g.call(case, eval_chain, URL, bi, r1, r2, u1)))
         # the intermediate URL was shared by the inner loop: if any step changed it, redo this row with a
         # fresh intermediate per case so that every reported case stands on its own
         dirty = False
         if u1 is not None:
             try:
-                dirty = snapshot(u1) != text1
+                dirty = snapshot(u1) != snap1
             except Exception:
                 dirty = True
         if dirty:
             rows = []
             for r2, nt2 in refs2:
                 case = {'part': 'chain', 'base': bi.text, 'refs': [r1, r2]}
-                res = eval_chain(URL, bi, r1, r2)
-                try:
-                    v = URL(bi.text).navigate(r1)
-                    before = snapshot(v)
-                    v.navigate(r2)
-                    if snapshot(v) != before:
-                        res.append(('C07|fn:navigate-chain|intermediate-modified', before, snapshot(v), []))
-                except Exception:
-                    pass
-                rows.append((case, res))
+                rows.append((case, g.call(case, _chain_fresh, URL, bi, r1, r2)))
         for case, res in rows:
-            if res:
-                _record(t, case, res)
+            _record(t, case, res)
 
 
-def shard_normalize(arg, t, cur):
+def shard_normalize(arg, t, g):
     URL = _url()
     prefix = arg['prefix']
     kinds = ('abempty',) if prefix else ('abs', 'rel')
@@ -520,11 +563,8 @@ def shard_normalize(arg, t, cur):
             for suffix in ('', '?q#f'):
                 for with_case in (True, False):
                     case = {'part': 'normalize', 'url': prefix + path + suffix, 'with_case': with_case}
-                    cur.update(case)
                     t.count(nontrivial=nontrivial, sample=case if len(t.samples) < 3 else None)
-                    res = eval_normalize(URL, case['url'], with_case)
-                    if res:
-                        _record(t, case, res)
+                    _record(t, case, g.call(case, eval_normalize, URL, case['url'], with_case))
 
 
 # ----------------------------------------------------------------------------------------------------
@@ -575,7 +615,10 @@ def run(ctx):
 
     cov = ctx.coverage
     cov['rule'] = rule
-    cov['exhaustive'] = True          # no cap: every case of the stated space is evaluated
+    hangs = sum(p.get('hangs', 0) for p in cov.get('parts', {}).values())
+    cov['exhaustive'] = hangs == 0    # no cap: every case of the stated space is evaluated (unless the code hung)
+    if hangs:
+        cov['cap_hit'] = '%d case(s) exceeded the CPU budget; shards were abandoned after repeated hangs' % hangs
     cov['bounds'] = dict(b, segments=list(SEGMENTS), name_segments=list(NAME_SEGMENTS),
                          queries=['<none>', '?y', '?'], fragments=['<none>', '#s'], bases=list(BASES),
                          name_bases=list(NAME_BASES), chain_bases=list(CHAIN_BASES[:b['chain_bases']]),
@@ -596,8 +639,21 @@ def run(ctx):
 
 
 def replay(ctx, data):
-    URL = _url()
     case = data['case']
+    old = signal.signal(signal.SIGVTALRM, _on_timer)
+    signal.setitimer(signal.ITIMER_VIRTUAL, 4 * CASE_CPU_BUDGET_S)
+    try:
+        return _replay(ctx, data, case)
+    except _Hang:
+        return ['C07|fn:%s|hang case=%r: no result within %g CPU seconds'
+                % (case.get('part'), case, 4 * CASE_CPU_BUDGET_S)]
+    finally:
+        signal.setitimer(signal.ITIMER_VIRTUAL, 0)
+        signal.signal(signal.SIGVTALRM, old)
+
+
+def _replay(ctx, data, case):
+    URL = _url()
     part = case.get('part')
     if part == 'normalize':
         res = eval_normalize(URL, case['url'], case['with_case'])
@@ -607,15 +663,7 @@ def replay(ctx, data):
         if len(refs) == 1:
             res = eval_navigate(URL, bi, refs[0])
         else:
-            res = eval_chain(URL, bi, refs[0], refs[1])
-            try:
-                v = URL(bi.text).navigate(refs[0])
-                before = snapshot(v)
-                v.navigate(refs[1])
-                if snapshot(v) != before:
-                    res.append(('C07|fn:navigate-chain|intermediate-modified', before, snapshot(v), []))
-            except Exception:
-                pass
+            res = _chain_fresh(URL, bi, refs[0], refs[1])
     # violations that KNOWN_FINDINGS.txt already records are not reported again by a replay
     res = [r for r in res if ctx._known_match({'sig': r[0], 'tags': list(r[3])}) is None]
     want = str(data.get('signature'))
